@@ -12,6 +12,7 @@ Theorems   : leaf soundness + completeness for ALL values on the clean fragment;
 -/
 import Oas3Model.Proofs.ValidLeaf
 import Oas3Model.Proofs.ValidGraph
+import Oas3Model.Model.ValidSites
 namespace Oas3.Props.C16
 open Oas3.Valid
 
@@ -390,5 +391,50 @@ example :
       some [("Body".toList, [[.nested]]), ("Deep".toList, [[.length none (some 2)]]), ("Inner".toList, [[.nested]]),
             ("OpRequest".toList, [[.nested]]), ("Out".toList, [[]])] := by
   decide +kernel
+
+/-! ## documents with several inline-object sites (`valid.sites`) -/
+
+/-- **site independence.**  The validators the model expects at site `i` of a document are `siteAttrs` of THAT
+site's own schema (under the usage of its generated type) — no other site's schema enters. -/
+theorem site_independent {κ : Type} [BEq κ] (compiles : List Char → Bool) (sites : List (DocVSite κ)) (i : Nat) :
+    (convertVDoc compiles sites)[i]? = (sites[i]?).map (fun d => siteAttrs compiles (effUsageV sites d) d.site) := by
+  simp [convertVDoc]
+
+/-- on the request side the expectation does not depend on the usage either: member by member it is
+`extract_all_validation` of the member's own schema -/
+theorem site_attrs_schema_only (compiles : List Char → Bool) (u : VUsage) (s : VSite) (hu : u.respOnly = false)
+    (hp : ∀ f ∈ s.fields, f.isParam = false) :
+    siteAttrs compiles u s = s.fields.map fun f => (f.name, memberAttrs compiles f.req f.s) := by
+  unfold siteAttrs
+  apply List.map_congr_left
+  intro f hf
+  simp [hu, MField.attrs, hp f hf]
+
+/-- a type used in both directions (e.g. shared between a request-side and a response-side holder) keeps
+its validators: only response-ONLY types are cleared -/
+theorem shared_request_response_keeps (a b : VUsage) (ha : a.inReq = true) : (a.join b).respOnly = false := by
+  simp [VUsage.join, VUsage.respOnly, ha]
+
+def daysSite (mx : Int) : VSite :=
+  { fields := [{ name := "days".toList, req := true, s := .prim { ty := .single .integer, minimum := some (n 1), maximum := some (n mx) } }] }
+
+/-- two same-shaped inline objects `{days: integer 1..365}` / `{days: integer 1..7}` in request bodies -/
+def twoSites : List (DocVSite Nat) := [⟨daysSite 365, ⟨true, false⟩, 365⟩, ⟨daysSite 7, ⟨true, false⟩, 7⟩]
+def probe : Nat → Name → List LV := fun _ _ => [.absent, sNum 0, sNum 1, sNum 7, sNum 8, sNum 30, sNum 365, sNum 366]
+
+/-- **sharing one struct between two sites with different limits breaks the per-site judge**: the model's
+validators pass at both sites; the validators of site 0 used at both sites (what a cache key that ignores the
+validation keywords produces) accept `days = 30` at the site that declares `maximum: 7`, and the other way
+round the stricter validators reject `days = 30` where 365 is allowed. -/
+theorem cex_shared_validators :
+    docJ rx0 twoSites (convertVDoc rx0.compiles twoSites) probe = [true, true] ∧
+    docJ rx0 twoSites [siteAttrs rx0.compiles ⟨true, false⟩ (daysSite 365), siteAttrs rx0.compiles ⟨true, false⟩ (daysSite 365)] probe = [true, false] ∧
+    docJ rx0 twoSites [siteAttrs rx0.compiles ⟨true, false⟩ (daysSite 7), siteAttrs rx0.compiles ⟨true, false⟩ (daysSite 7)] probe = [false, true] := by
+  decide +kernel
+
+/-- at a response-only use site nothing is claimed (the generator clears the validators there) -/
+theorem resp_only_site_unjudged (rx : Rx) (s : VSite) (k : Nat) (a : List (Name × List VAttr)) (vals : Nat → Name → List LV) :
+    docJ rx [⟨s, ⟨false, true⟩, k⟩] [a] vals = [true] := by
+  simp [docJ, VUsage.respOnly]
 
 end Oas3.Props.C16
